@@ -23,7 +23,7 @@ Record cfg := {
 Definition is_pad (p : Z) : bool := (0 <=? p) && (p <? 256).
 
 Definition wf_cfg (c : cfg) : bool :=
-  (19 <=? c_hlen c) && (c_hlen c <=? 255) && (35 <=? c_nsizes c) && (c_nsizes c <=? 255) &&
+  (19 <=? c_hlen c) && (c_hlen c <=? 250) && (35 <=? c_nsizes c) && (c_nsizes c <=? 255) &&
   (negb (c_tid4 c) || negb (c_v2 c)) &&
   is_pad (c_pad_cols c) && is_pad (c_pad_null c) && is_pad (c_pad_tm c).
 
